@@ -29,8 +29,10 @@ CHECKS = {
     'C05': ('checks.composite', 'C05'),
     'C11': ('checks.docs_check', 'C11'),
     'C20': ('checks.docs_check', 'C20'),
+    'C12': ('checks.c12', 'C12'),
     'C13': ('checks.numexpr', 'C13'),
     'C14': ('checks.c14', 'C14'),
+    'C15': ('checks.c15', 'C15'),
     'C16': ('checks.c16', 'C16'),
     'C17': ('checks.c17', 'C17'),
     'C19': ('checks.c19', 'C19'),
